@@ -70,7 +70,7 @@ spec fn same_seq2<T>(a: Seq<&T>, b: Seq<T>) -> bool { a.len() == b.len() && fora
 
 //@slice src/css.rs :: impl StyleData :: fn computed_style :: /for \(origin, ruleset\) in \[/ .. /(?m)^        #\[cfg\(feature = "css"\)\]\n        if _use_doc_css \{/
 //@name rules_slice
-//@auto C01 C19 C20
+//@auto C01 C19 C20 C18
 //@sub /for \(origin, ruleset\) in (\[[^\]]*\])/ ==> let origins = \1;\n        for oi in 0..3usize
 //@sub * /&self\./ ==> &this.
 //@sub /for rule in ruleset/ ==> for rule in itr: ruleset
@@ -85,7 +85,7 @@ spec fn all_applied(cs: ComputedStyle, d: StyleData, node: Handle, upto: int) ->
 }
 fn rules_slice(this: &StyleData, handle: &Handle, result: &mut ComputedStyle)
     requires node_ok(*handle),      // computed_style is called on element handles (process_dom_node)
-    ensures *final(result) == all_applied(*old(result), *this, *handle, 3), //@w @C19 @C20 #every_matching_rule_of_every_origin_takes_part
+    ensures *final(result) == all_applied(*old(result), *this, *handle, 3), //@w @C18 @C19 @C20 #every_matching_rule_of_every_origin_takes_part
 { //@w]
         let origins = [
             (StyleOrigin::Agent, &this.agent_rules),
@@ -101,14 +101,14 @@ fn rules_slice(this: &StyleData, handle: &Handle, result: &mut ComputedStyle)
             let (origin, ruleset) = origins[oi]; //@w
             let ghost base = *result; //@w
             for rule in itr: ruleset
-                invariant node_ok(*handle), same_seq2(itr.seq(), ruleset@), *result == rules_applied(base, ruleset@, origin, *handle, itr.index@), //@w @C19 @C20 #every_matching_rule_of_every_origin_takes_part
+                invariant node_ok(*handle), same_seq2(itr.seq(), ruleset@), *result == rules_applied(base, ruleset@, origin, *handle, itr.index@), //@w @C18 @C19 @C20 #every_matching_rule_of_every_origin_takes_part
             {
                 let ghost rbase = *result; //@w
                 let ghost ri = itr.index@; //@w
                 assert(*rule == ruleset@[ri]); //@w
                 if rule.selector.matches(handle) {
                     for style in its: rule.styles.iter()
-                        invariant same_seq2(its.seq(), rule.styles@), *result == styles_applied(rbase, *rule, origin, its.index@), //@w @C19 @C20 #every_matching_rule_of_every_origin_takes_part
+                        invariant same_seq2(its.seq(), rule.styles@), *result == styles_applied(rbase, *rule, origin, its.index@), //@w @C18 @C19 @C20 #every_matching_rule_of_every_origin_takes_part
                     {
                         assert(*style == rule.styles@[its.index@]); //@w
                         merge_computed_style(
@@ -156,7 +156,7 @@ spec fn attrs_applied(cs: ComputedStyle, attrs: Seq<Attribute>, k: int) -> Compu
 
 //@slice src/css.rs :: impl StyleData :: fn computed_style :: /if let Element \{ attrs, \.\. \} = &handle\.data \{/ .. /(?m)^        \}\n\n        result\n/
 //@name inline_slice
-//@auto C01 C19
+//@auto C01 C19 C18
 //@sub /for attr in borrowed\.iter\(\)/ ==> for attr in ita: borrowed.iter()
 //@sub /&attr\.name\.local == "style"/ ==> local_is(&attr.name, "style")
 //@sub /&\*attr\.name\.local == "color"/ ==> local_is(&attr.name, "color")
@@ -173,13 +173,13 @@ fn inline_slice(handle: &Handle, result: &mut ComputedStyle) //@w[
     ensures
         // every declaration of the style attribute takes part as an author declaration of inline specificity with its own importance;
         // color / bgcolor attributes as unimportant ones; attributes are taken in document order; nothing else changes the style
-        (handle.data matches NodeData::Element { attrs, .. } ==> *final(result) == attrs_applied(*old(result), attrs.val()@, attrs.val()@.len() as int)), //@w @C19 #inline_declarations_keep_their_importance
-        !(handle.data is Element) ==> *final(result) == *old(result), //@w @C19 #only_elements_have_inline_style
+        (handle.data matches NodeData::Element { attrs, .. } ==> *final(result) == attrs_applied(*old(result), attrs.val()@, attrs.val()@.len() as int)), //@w @C18 @C19 #inline_declarations_keep_their_importance
+        !(handle.data is Element) ==> *final(result) == *old(result), //@w @C18 @C19 #only_elements_have_inline_style
 { //@w]
             if let Element { attrs, .. } = &handle.data {
                 let borrowed = attrs.borrow();
                 for attr in ita: borrowed.iter()
-                    invariant same_seq2(ita.seq(), borrowed@), *borrowed == attrs.val(), *result == attrs_applied(*old(result), borrowed@, ita.index@), //@w @C19 #inline_declarations_keep_their_importance
+                    invariant same_seq2(ita.seq(), borrowed@), *borrowed == attrs.val(), *result == attrs_applied(*old(result), borrowed@, ita.index@), //@w @C18 @C19 #inline_declarations_keep_their_importance
                 {
                     let ghost abase = *result; //@w
                     assert(*attr == borrowed@[ita.index@]); //@w
@@ -187,7 +187,7 @@ fn inline_slice(handle: &Handle, result: &mut ComputedStyle) //@w[
                     if local_is(&attr.name, "style") {
                         let rules = parse_style_attribute_or_default(&attr.value);
                         for style in itd: rules
-                            invariant itd.seq() == rules@, rules@ == style_attr_decls(tendril_str(attr.value)), *result == decls_applied(abase, rules@, itd.index@), //@w @C19 #inline_declarations_keep_their_importance
+                            invariant itd.seq() == rules@, rules@ == style_attr_decls(tendril_str(attr.value)), *result == decls_applied(abase, rules@, itd.index@), //@w @C18 @C19 #inline_declarations_keep_their_importance
                         {
                             assert(style == rules@[itd.index@]); //@w
                             merge_computed_style(
